@@ -168,6 +168,10 @@ l20:
   goto l50;
 l30:
   /* (2) continued fraction */
+  /* The upper tail is factor * cf with 0 < cf <= 1 (x > 1, x >= alpha): once factor underflows the result is 1.
+     (For x > 1e102 the convergents below overflow to inf/inf = NaN and the loop never ended.) */
+  if (factor == 0 || std::isinf(x))
+    return 1;
   a = 1 - p;   b = a + x + 1;  term = 0;
   pn[0] = 1;  pn[1] = x;  pn[2] = x + 1;  pn[3] = x * b;
   gin = pn[2] / pn[3];
